@@ -45,29 +45,44 @@ func stickyVarsOf(p *Prog, fn *ssa.Function) []*stickyVar {
 			// values arriving over back edges, flattened through phis inside the body
 			var fresh []string
 			seen := map[ssa.Value]bool{}
-			var flat func(v ssa.Value)
-			flat = func(v ssa.Value) {
-				if seen[v] {
-					return
-				}
-				seen[v] = true
+			// from: the block the value leaves to enter the phi web; the conditions tested inside
+			// the loop that control that block say WHEN the state is replaced
+			type arrival struct {
+				v    ssa.Value
+				from *ssa.BasicBlock
+			}
+			seenA := map[arrival]bool{}
+			var flat func(v ssa.Value, from *ssa.BasicBlock)
+			flat = func(v ssa.Value, from *ssa.BasicBlock) {
 				if v == ssa.Value(phi) {
 					return
 				}
 				if q, ok := v.(*ssa.Phi); ok && body[q.Block()] {
-					for _, e := range q.Edges {
-						flat(e)
+					if seen[v] {
+						return
+					}
+					seen[v] = true
+					for i, e := range q.Edges {
+						flat(e, q.Block().Preds[i])
 					}
 					return
 				}
+				if seenA[arrival{v, from}] {
+					return
+				}
+				seenA[arrival{v, from}] = true
 				if derivesFromValue(v, phi, body, 0) {
 					return
 				}
-				fresh = append(fresh, descValue(v, 0))
+				g := ""
+				if n := len(from.Instrs); n > 0 {
+					g = strings.Join(guardSetWithin(from.Instrs[n-1], body), " && ")
+				}
+				fresh = append(fresh, descValue(v, 0)+" ["+g+"]")
 			}
 			for i, pr := range h.Preds {
 				if body[pr] {
-					flat(phi.Edges[i])
+					flat(phi.Edges[i], pr)
 				}
 			}
 			if len(fresh) == 0 {
